@@ -72,7 +72,20 @@ def generate(rng, tier):
         if rng.random() < 0.25:
             op["dst"] = ["fe80::1" if peer == "Q6" else "10.0.0.1", 5353]
         ops.append(op)
+        if sp != 5353 and rng.random() < 0.35:
+            # the same one-shot query (same bytes, same id) from another legacy client - or retransmitted by this one -
+            # shortly afterwards
+            twin = dict(op)
+            other = rng.choice([("Q1", 5354), ("Q1", 40001), ("Q2", 6000)])
+            if rng.random() < 0.25:
+                other = (peer, sp)
+            twin["p"], twin["src_port"] = other
+            if "dst" in twin and other[0] == "Q6":
+                twin.pop("dst")
+            twin["t"] = round(op["t"] + rng.choice([0.0, 0.005, 0.3, 0.999, 1.001]) + 0.0000011, 7)
+            ops.append(twin)
         qid += 1
+    ops.sort(key=lambda o: o["t"])
     faults = {"max_delay_us": rng.choice([0, 1000, 50000]), "loop_delay_us": rng.choice([0, 200, 1000]),
               "dup_p": rng.choice([0.0, 0.1]), "grid_p": 0.0}
     return {"timer_slop_us": rng.choice([0, 0, 0.1]), "ops": ops, "faults": faults, "end": round(t + 3.0, 3), "svcs": svcs}
@@ -101,7 +114,7 @@ def execute(scenario, seed, overrides=None):
                 if e["op"] == "register" and e["t_done"] is not None and e["exc"] is None and not e.get("_c11"):
                     e["_c11"] = True
                     reg.register(e["svc"])
-            msg, eff = m.on_rx(t, rsock.label, data, v6sock=rsock.family == AF_INET6)
+            msg, eff = m.on_rx(t, rsock.label, data, v6sock=rsock.family == AF_INET6, src=addr)
             if msg is None or msg.is_response or addr[0].replace("::ffff:", "") in ("10.0.0.1", "fe80::1"):
                 return
             if msg.tc:
